@@ -52,6 +52,12 @@ TABLE = {
     "C14": ("TLA+ spec (MarketOps.tla: asset -> BookOps record, shared clock) with TLC-generated histories replayed into Market<2>/Market<3> (MarketGen.tla) and outcome sets for MarketEnv (EnvGen.tla)",
             "The specification is literally 'independent books sharing one clock'; every bounded history of direct operations over 2-3 assets with per-asset ticks (same local ids on several assets, per-asset and all-asset queries, reloads) is replayed into the real Market and compared asset by asset; independence as TLC action property; shuffled cross-asset batches through MarketEnv outcome sets.",
             "6 C14"),
+    "C16": ("TLA+ relations (Agents.tla, Big.tla) between an agent's observation and the instructions it queued; every update call of seeded runs recorded from the real agents is validated by TLC (AgentTrace.tla); aborts caught by the recorder",
+            "The agents are specified as relations: which instruction sequences are possible given what the agent could observe (own active orders, twice the mid-price, parameters), what is forbidden at probability 0 and mandatory at probability >= 1. Every update call of seeded runs over the parameter matrix (kind x single/multi asset x tick 1..10 x probabilities {0, 0.3, 1, 1.5} x sigma {1, 10} x starting book, plus scripted boundary draws 0 / all-ones) is validated by TLC; prices up to 2^32 handled as digit pairs. A panic anywhere is a violation. Interior probabilities are not measured.",
+            "6 C16"),
+    "C17": ("TLA+ relation MomentumRel with the momentum signal recomputed exactly by TLC (dyadic integers) from the observed mid-prices; harness-imposed price paths at saturated demand; mirrored run pairs validated by TLC",
+            "At saturated demand the documented rule is deterministic: TLC recomputes M from the logged mid-price sequence (decay 1 and 1/2 exactly) and requires buys for M > 0, sells for M < 0, nothing for M = 0, one market order (and one limit order when the ratio is >= 1) per trader; each run is repeated on the reflected price path with the same seed and TLC requires the reflected order flow (sides swapped, same sizes, prices reflected about the level).",
+            "6 C17"),
 }
 
 PENDING = {
